@@ -475,6 +475,23 @@ func (s *Server) GetResolved(docURI protocol.DocumentURI) *include.ResolvedJourn
 	return nil
 }
 
+// getWorkspaceResolvedWithPath returns the resolved tree used for docURI together with the
+// path of the file its Primary journal was parsed from: the workspace's root journal for the
+// workspace tree, the document itself for a per-document tree.
+func (s *Server) getWorkspaceResolvedWithPath(docURI protocol.DocumentURI) (*include.ResolvedJournal, string) {
+	if s.workspace != nil {
+		if resolved := s.workspace.GetResolved(); resolved != nil {
+			root := s.workspace.RootJournalPath()
+			docPath := uriToPath(docURI)
+			// a document outside the workspace's include tree keeps its own tree
+			if _, member := resolved.Files[docPath]; root != "" && (member || docPath == root) {
+				return resolved, root
+			}
+		}
+	}
+	return s.GetResolved(docURI), uriToPath(docURI)
+}
+
 func (s *Server) getWorkspaceResolved(docURI protocol.DocumentURI) *include.ResolvedJournal {
 	if s.workspace != nil {
 		if resolved := s.workspace.GetResolved(); resolved != nil {
